@@ -14,8 +14,8 @@ CONSTANTS
   MaxBlocks = 6
   MaxReorg = 3
   MaxCrashes = 1
-  MaxDowns = 2
-  MaxSkips = 2
+  MaxDowns = 0
+  MaxSkips = 0
   FreeChoice = TRUE
 INVARIANT TypeOK
 INVARIANT RowsEqualCanonical
